@@ -30,5 +30,11 @@ TEXT = {
   "note": "Trusted: Lean kernel; Lean Float (opaque) for float operations; math.Pow only where exact; parse_pp (parser o minimal-parentheses printer = id) not yet proved — parser tied by differential execution.",
   "technique": "Lean 4 theorem evaluator = typed reference semantics (induction on trees) + regenerated symbol table + differential rendering against an independent evaluator",
  },
+ "C03": {
+  "text": "Theorems in Lean 4: over every call history the banned names are exactly the names whose Ban call succeeded (bans_are_accepted); once a template was created the set stays frozen, every later ban is refused and changes nothing, and the ban lists never change again (frozen_stays, ban_after_create_refused, bans_fixed_after_create); unknown and duplicate names are refused. In the parser model the three places a name is resolved each reject a banned name whatever surrounds it: parseTag (banned_tag_rejected), filterLoop (banned_filter_rejected, via parseFilter_name) and the filter tag's argument parser (banned_filter_in_filter_tag_rejected). Regenerated fact: every by-name lookup site in the Go code is dominated by a ban-list lookup (gen_ban_sites_guarded). All routes (26 expression positions / 9 nestings x 8 file compositions) for every registered tag/filter and histories on 1-2 sets are checked against the implementation with invocation-counting probes.",
+  "ref": "DESIGN.md §6 C03",
+  "note": "Trusted: Lean kernel; extractor's ban-site analysis; that the three modelled lookup sites are all the routes (the regenerated site list says so for the Go code).",
+  "technique": "Lean 4 state-machine invariants + local parser theorems + regenerated ban-site facts + route/history differential suites with probes",
+ },
 }
 PENDING = {}
